@@ -438,3 +438,59 @@ def novel_members(schema, feats):
                 if v is not None:
                     out.append((name, key, v))
     return out
+
+
+# ---------------------------------------------------------------- strings that collide with a name under a common 32-bit hash
+_COLL_CACHE = {}
+
+
+def hash_collisions(name, same_length=True, per_hash=1):
+    """strings != name with the same FNV-1a / FNV-1 / djb2 hash (32 bit), found by meet-in-the-middle over the last six characters
+    (each step of these hashes is invertible modulo 2^32); with same_length the result has the length of the name and shares its
+    prefix, otherwise it is a 6-character string.  A dispatch on a hash (with or without the length) instead of on the string
+    accepts them."""
+    key = (name, same_length, per_hash)
+    if key in _COLL_CACHE:
+        return _COLL_CACHE[key]
+    import itertools
+    M = 0xFFFFFFFF
+    alpha = b"abcdefghijklmnopqrstuvwxyzABCDEFGHIJKLMNOPQRSTUVWXYZ0123456789"
+    nb = name.encode()
+    prefix = nb[:-6] if (same_length and len(nb) >= 6) else b""
+    if same_length and len(nb) < 6:
+        _COLL_CACHE[key] = []
+        return []
+    P = 16777619
+    Pinv = pow(P, -1, 2**32)
+    i33 = pow(33, -1, 2**32)
+    fams = [(lambda h, c: ((h ^ c) * P) & M, lambda h, c: ((h * Pinv) & M) ^ c, 2166136261),
+            (lambda h, c: ((h * P) & M) ^ c, lambda h, c: (((h ^ c) * Pinv) & M), 2166136261),
+            (lambda h, c: (h * 33 + c) & M, lambda h, c: ((h - c) * i33) & M, 5381)]
+    out = []
+    for step, unstep, basis in fams:
+        target = basis
+        for c in nb:
+            target = step(target, c)
+        h0 = basis
+        for c in prefix:
+            h0 = step(h0, c)
+        fwd = {}
+        for pre in itertools.product(alpha, repeat=3):
+            h = h0
+            for c in pre:
+                h = step(h, c)
+            fwd.setdefault(h, bytes(pre))
+        found = 0
+        for suf in itertools.product(alpha, repeat=3):
+            h = target
+            for c in reversed(suf):
+                h = unstep(h, c)
+            if h in fwd:
+                cand = prefix + fwd[h] + bytes(suf)
+                if cand != nb:
+                    out.append(cand.decode())
+                    found += 1
+                    if found >= per_hash:
+                        break
+    _COLL_CACHE[key] = out
+    return out
